@@ -196,6 +196,15 @@ Section facts.
 
   (* slices: nil stays nil (the zero value of a slice type is nil); a non-nil slice (also an empty one)
      becomes a non-nil slice with a fresh backing array, same length, elements converted in order *)
+  Lemma store_into_nil_not_done (ea' : aplan -> val -> val -> N -> outcome (val * N)) i a s st x :
+    store_into_nil ea' i a s st <> Done x.
+  Proof. unfold store_into_nil. destruct a; try discriminate; destruct (ea' _ s VNil st); discriminate. Qed.
+  Lemma store_into_nil_error (ea' : aplan -> val -> val -> N -> outcome (val * N)) i a s st er' :
+    store_into_nil ea' i a s st = Errored er' -> exists er, ea' a s VNil st = Errored er /\ er' = push_elem (DIndex i) er.
+  Proof.
+    unfold store_into_nil. destruct a; try discriminate; destruct (ea' _ s VNil st) as [x| | | |er] eqn:E; try discriminate;
+      intros [= <-]; exists er; split; reflexivity.
+  Qed.
   Lemma each_assign_length ea i a srcs olds st rs st' :
     length olds = length srcs ->
     each_assign ea i a srcs olds st = Done (rs, st') -> length rs = length srcs.
